@@ -47,20 +47,21 @@ Theorem C18_cache_schema_total : forall D, wf_total D -> forall st m, In m (d_ms
 Proof. exact cache_schema_total. Qed.
 Print Assumptions C18_cache_schema_total.
 
-(* ---- self-consistency of a successful reflection, under the hypothesis wf_desc:
+(* ---- self-consistency of a successful reflection, under the hypothesis wf_keys:
      (1) enums non-empty (protodesc guarantees it),
      (2) split names of messages / enums / real oneofs pairwise distinct (NOT guaranteed by a linked set:
-         C18_split_name_collision_refuted),
+         C18_split_name_collision_refuted).
+   Conclusion: distinct keys, no unlinked placeholder, every scalar format known, every reference names
+   an entry of the set. The reader introduces no duplicate property name: the names of an object's
+   properties are pairwise distinct GIVEN json_ok,
      (3) per message, the JSON names of its fields and of its exposed oneofs are pairwise distinct (protoc
          guarantees this for the fields among themselves only: C18_exposed_oneof_name_clash_refuted).
-   Conclusion: distinct keys, no unlinked placeholder, every scalar format known, every reference names
-   an entry of the set, and the reader introduces no duplicate property name: the names of an object's
-   properties are pairwise distinct GIVEN (3). Clause "property names are unique" of C18 is therefore
-   proved only relative to (3); without it the witness above refutes it. *)
-Theorem C18_reflect_ok_guarantees : forall D, wf_desc D -> forall fs S,
+   Clause "property names are unique" of C18 is therefore proved only relative to (3); without it the
+   witness below refutes it. *)
+Theorem C18_reflect_ok_guarantees : forall D, wf_keys D -> forall fs S,
   reflect D fs = Ok S ->
   keys_distinct S = true /\ set_importable S = true /\ set_closed S = true /\
-  (forall k r, lookup S k = Some (Linked r) -> names_unique_b (root_props r) = true) /\
+  (json_ok D -> forall k r, lookup S k = Some (Linked r) -> names_unique_b (root_props r) = true) /\
   (forall k, lookup S k <> Some Placeholder).
 Proof. exact reflect_ok_guarantees. Qed.
 Print Assumptions C18_reflect_ok_guarantees.
@@ -168,7 +169,7 @@ Print Assumptions C18_flatten_names_refuted.
 (* 4. (found by the independent audit) protoc checks JSON-name conflicts between fields only: an exposed
    oneof named foo_bar gets the property name lowerCamel("foo_bar") = "fooBar", the same as the field
    fooBar. Split names are distinct, enums non-empty, field JSON names distinct, field numbers distinct:
-   only the third clause of wf_desc (which also ranges over exposed oneofs) fails. *)
+   only json_ok, the second half of wf_desc (which also ranges over exposed oneofs), fails. *)
 Definition oneof_clash_desc : desc :=
   {| d_msgs := [
        Msg (bytes "p.v1.M") (bytes "p.v1") [bytes "M"]
